@@ -201,32 +201,43 @@ def run(ctx):
             r3.ok(key, "on the matching edge of `res < now`", loc(a["sp"]))
         else:
             r3.violation(key, "the late flag does not match the comparison of the sender time with now", loc(a["sp"]))
+    psl_ = Slicer(p.body)
     for a in field_accesses(prog, FR, "sender_current_time_offset", funcs=[p]):
         if a["kind"] != "assign":
             continue
-        n += 1
-        fs = pf_.facts_at(a["bb"])
-        late = any(aa[0] == "lt" and t2 and show(aa[1]) == SCT and show(aa[2]) == "now" for (aa, t2) in fs)
-        cs = [c for c in walk(a["value"]) if c[0] == "call" and c[1].endswith("SystemTime::duration_since")]
-        key = "FdtReceiver::push offset (%s)" % ("late" if late else "early")
-        if cs:
-            recv, arg = show(polarity.strip(cs[0][2][0])), show(polarity.strip(cs[0][2][1]))
-            if (late and recv == "now" and arg == SCT) or (not late and recv == SCT and arg == "now"):
-                r3.ok(key, "%s.duration_since(%s)" % (recv, arg), loc(a["sp"]))
+        # the stored value, per definition: `Some(now.duration_since(res))` written in each branch, or `Some(offset)` with `offset` chosen by an
+        # if/else before the store
+        cands = [(a["value"], a["bb"])]
+        inner_ = [z for z in walk(a["value"]) if z[0] == "var" and not z[2]]
+        if not any(c[0] == "call" and c[1].endswith("SystemTime::duration_since") for c in walk(a["value"])) and len(inner_) == 1:
+            ds_ = [(e_, bb_) for (pj_, e_, bb_) in psl_.var_defs().get(inner_[0][1], []) if pj_ == ""]
+            if ds_:
+                cands = ds_
+        for val_, bb_ in cands:
+            n += 1
+            fs = pf_.facts_at(bb_)
+            late = any(aa[0] == "lt" and t2 and show(aa[1]) == SCT and show(aa[2]) == "now" for (aa, t2) in fs)
+            cs = [c for c in walk(val_) if c[0] == "call" and c[1].endswith("SystemTime::duration_since")]
+            key = "FdtReceiver::push offset (%s)" % ("late" if late else "early")
+            if cs:
+                recv, arg = show(polarity.strip(cs[0][2][0])), show(polarity.strip(cs[0][2][1]))
+                if (late and recv == "now" and arg == SCT) or (not late and recv == SCT and arg == "now"):
+                    r3.ok(key, "%s.duration_since(%s)" % (recv, arg), loc(a["sp"]))
+                else:
+                    r3.violation(key, "offset computed as %s.duration_since(%s) on the %s edge" % (recv, arg, "late" if late else "early"), loc(a["sp"]))
             else:
-                r3.violation(key, "offset computed as %s.duration_since(%s) on the %s edge" % (recv, arg, "late" if late else "early"), loc(a["sp"]))
-        else:
-            r3.violation(key, "offset is %s" % show(a["value"], 60), loc(a["sp"]))
+                r3.violation(key, "offset is %s" % show(val_, 60), loc(a["sp"]))
     gst = prog.fn(FR + "::get_server_time")
     ctx.analysed(gst.path)
     gf2 = Flow(gst.body)
+    gsl2 = Slicer(gst.body)
     for s in call_sites(gst, lambda p2, c: re.search(r"ops::(arith::)?(Add|Sub).*::(add|sub)$", p2) is not None):
         n += 1
         fs = gf2.facts_at(s.bb)
         late = [t2 for (aa, t2) in fs if aa[0] == "true" and show(aa[1]) == "self.sender_current_time_late"]
         opn = method_name(s)
         key = "get_server_time now %s offset" % ("-" if opn == "sub" else "+")
-        okargs = show(s.expr[2][0]) == "now" and show(s.expr[2][1]) == "offset"
+        okargs = show(s.expr[2][0]) == gst.body.names.get(2, "now") and show(gsl2.expand(s.expr[2][1])) == "self.sender_current_time_offset@Some.0"
         if late and ((opn == "sub" and all(late)) or (opn == "add" and not any(late))) and okargs:
             r3.ok(key, "under late == %s" % late[0], s.loc)
         else:
@@ -259,18 +270,31 @@ def run(ctx):
             if caller != COMPLETE:
                 r4.violation(key, "the expiry instant is written outside FdtWriter::complete", loc(a["sp"]))
                 continue
-            srcs = csl.sources(a["value"])
+            srcs = set(csl.sources(a["value"]))
+            # `.ok().and_then(|secs| ntp_to_system_time(..).ok())`: the conversion sits in a closure applied to the parsed attribute
+            for z in list(srcs):
+                if z.startswith("closure:") and z[8:] in prog.funcs and call_sites(prog.funcs[z[8:]], lambda p2, c: p2 == "tools::ntp_to_system_time"):
+                    srcs.add("call:tools::ntp_to_system_time")
             if any(z.endswith("tools::ntp_to_system_time") for z in srcs) and any(re.match(r"var:inst\.expires", z) for z in srcs):
                 r4.ok(key, "<- ntp_to_system_time(.. inst.expires ..)", loc(a["sp"]))
             else:
                 r4.violation(key, "expires does not derive from the instance's Expires attribute through ntp_to_system_time (sources: %s)" % sorted(
                     z for z in srcs if z.startswith(("var:", "call:")))[:8], loc(a["sp"]))
-    for s in call_sites(cf, lambda p2, c: p2 == "tools::ntp_to_system_time"):
-        ex = bits.strip(csl.expand(s.expr[2][0]))
+    ntp_sites = []
+    for fp_ in prog.with_closures(cf.path):
+        for s in call_sites(prog.funcs[fp_], lambda p2, c: p2 == "tools::ntp_to_system_time"):
+            ntp_sites.append((prog.funcs[fp_], s))
+    for fn_, s in ntp_sites:
+        slx = csl if fn_ is cf else Slicer(fn_.body)
+        ex = bits.strip(slx.expand(s.expr[2][0]))
         key = "FdtWriter::complete NTP value of Expires"
         okv = ex[0] == "bin" and ex[1].startswith("Shl") and show(ex[3]) == "32"
         inner = bits.strip(ex[2]) if okv else None
-        if okv and re.search(r"parse.*@Ok\.0|seconds_ntp", show(inner, 200)):
+        # the shifted value is the parsed attribute: `parse(..)@Ok.0`, or the u32 parameter of the closure applied to the parse result
+        cparams = set(fn_.body.names.get(l) for l in range(1, fn_.body.argc + 1) if fn_.body.locals[l]["ty"] == "u32") if fn_.kind == "closure" else set()
+        while okv and inner[0] == "cast":
+            inner = inner[2]
+        if okv and (re.search(r"parse.*@Ok\.0", show(inner, 200)) or (inner[0] == "var" and inner[1] in cparams and not inner[2])):
             r4.ok(key, "(seconds as u64) << 32", s.loc)
         else:
             r4.violation(key, "Expires is converted as %s; the attribute holds NTP *seconds*, which belong in the upper 32 bits" % show(ex, 100), s.loc)
